@@ -181,7 +181,7 @@ theorem RT_decStruct_choice (f : Nat → Ty → Params → Val → Res Bits) (g 
     (Halt : ∀ (p : Int) (fd : Aper.Field) (alt : Val) (pos : Nat) (a : Bits), fs[0]? = some (.int p) → 0 < p →
       sd.fields[p.toNat]? = some fd → fs[p.toNat]? = some alt →
       f pos fd.ty fd.params alt = .ok a →
-        a ≠ [] ∧ RT' a pos (g fd.ty fd.params) alt ∧ (params.openType = true → pos = 0 → (a.length + 7) / 8 < 16384))
+        a ≠ [] ∧ RT' a pos (g fd.ty fd.params) alt)
     (hshape : ∀ (p : Int) (alt : Val), fs[0]? = some (.int p) → 0 < p → fs[p.toNat]? = some alt →
       setAt (setAt (sd.fields.map fun fd => zero fd.ty) 0 (.int p)) p.toNat alt = fs)
     (h : encChoice f sd params pos1 fs = .ok b) :
@@ -206,10 +206,11 @@ theorem RT_decStruct_choice (f : Nat → Ty → Params → Val → Res Bits) (g 
     simp only [hot, if_true, hrv]
     rw [findAlt_of_altsOK sd.fields halts p.toNat fd rv (by omega) hfd hfrv]
     simp only [hfd]
-    obtain ⟨hine, hirt, hilen⟩ := Halt p fd alt 0 inner hfs0 hp0 hfd halt hinner
-    apply RT_get
-    intro r0
-    have hoct := RT_openType pos1 inner b (r0.len + 1) hine (hilen hot rfl) hopen
+    obtain ⟨hine, hirt⟩ := Halt p fd alt 0 inner hfs0 hp0 hfd halt hinner
+    apply RT_get_len
+    intro r0 hr0
+    have hoct := RT_openType_any pos1 inner b (r0.len + 1 + 1)
+      (by have := encOpenType_length pos1 inner b hopen; omega) hopen
     have hpl := padded_length inner
     have hmod : (inner ++ alignBits inner.length).length % 8 = 0 := by rw [hpl]; omega
     have hrd : Rd.ofBytes (bitsToBytes (inner ++ alignBits inner.length)) = mkRd (inner ++ alignBits inner.length) 0 := by
@@ -236,7 +237,7 @@ theorem RT_decStruct_choice (f : Nat → Ty → Params → Val → Res Bits) (g 
     have h1 : ¬ (p.toNat = 0) := by omega
     have h2 : ¬ (p.toNat ≥ sd.fields.length) := by omega
     simp only [h1, if_false, h2, hfd]
-    obtain ⟨hane, hart, _⟩ := Halt p fd alt (pos1 + ib.length) ab hfs0 hp0 hfd halt hab
+    obtain ⟨hane, hart⟩ := Halt p fd alt (pos1 + ib.length) ab hfs0 hp0 hfd halt hab
     have := RT_map (fun v => Val.struct (setAt (setAt (sd.fields.map fun fd => zero fd.ty) 0 (.int ↑p.toNat)) p.toNat v))
       (hart.toRT hane)
     rw [hsh'] at this
